@@ -116,8 +116,16 @@ def r5_physical_lines(m):
 
 def run(m, tier):
     results = [r1_number_text(m), r2_reader_supplied(m), rr.rule_linecount(m, "C07.R3"), rr.rule_span(m, "C07.R4"), r5_physical_lines(m)]
+    from rules import C09, order_rules
+    r6 = C09.r8_table_keys(m)
+    r6.rule = "C07.R6"
+    r6.title = "the failure-path clean-up cannot raise SymbolTableError in place of the syntax error because of letter case (shared with C09.R8)"
+    for f in r6.findings:
+        f.rule = "C07.R6"
+    results.append(r6)
+    results.append(order_rules.index_guard_rule(m, "C07.R7"))
     expl = ("Decides narrow structural clauses of C07: wherever a message quotes a source line it is source_lines[linecount - 1] of the "
             "same reader whose linecount is printed; every FortranSyntaxError is raised with the function's reader parameter; the "
             "physical line counter is moved by exactly one per line taken/given back on every path and item spans are tied to it "
-            "(shared with C12). Does NOT decide how far look-ahead had advanced the counter at the moment of failure for every nest.")
+            "(shared with C12); the clean-up run while a syntax error propagates looks tables up case-blind and raising str.index look-ups are guarded, so the error that arrives is the syntax error. Does NOT decide how far look-ahead had advanced the counter at the moment of failure for every nest.")
     return results, expl
